@@ -25,7 +25,7 @@ func initClosedRange() {
 		"==",
 		func(vm *Thread, args []value.Value) (value.Value, value.Value) {
 			self := args[0].MustReference().(*value.ClosedRange)
-			other, ok := args[1].MustReference().(*value.ClosedRange)
+			other, ok := args[1].SafeAsReference().(*value.ClosedRange)
 			if !ok {
 				return value.False.ToValue(), value.Undefined
 			}
